@@ -637,10 +637,10 @@ mutual
             return .ctorUpdate ctor toPtr true false inner
           | none => pure ()
           let inner ← conv c fuel cx .build true se t path
-          return .srcPtr inner
+          return .srcPtr t inner
         let v ← if mode == .build then targetVar c cx s t path else pure none
         let inner ← conv c fuel cx .build true se t path
-        return withVar v (.srcPtr inner)
+        return withVar v (.srcPtr t inner)
       -- 7 TargetPointer
       if sPtr.isNone && tPtr.isSome then
         let te := tPtr.getD t
